@@ -93,7 +93,7 @@ def build_theories(timeout=1500):
     return rc, out, dt
 
 
-def proof_side(prop):
+def proof_side(prop, tier='quick'):
     """Returns dict: obligations, discharged, theorems [(name, assumptions)], ok, problems."""
     problems = []
     hits = forbidden_scan()
@@ -138,6 +138,23 @@ def proof_side(prop):
                 problems.append('%s depends on axioms outside the allow-list: %s' % (nm, ', '.join(bad)))
             else:
                 res['discharged'] += 1
+    # thorough tier: the independent checker re-checks the compiled property module and everything it depends on
+    if tier == 'thorough' and not problems:
+        rc3, out3, dt3 = sh('timeout 1500 coqchk -o -silent -Q theories Tephra -Q properties TephraProps TephraProps.%s' % prop,
+                            cwd=COQ, timeout=1530)
+        res['coqchk_s'] = dt3
+        m = re.search(r'\* Axioms:(.*?)\n\s*\n\* Constants/Inductives relying on type-in-type:(.*?)\n\s*\n'
+                      r'\* Constants/Inductives relying on unsafe \(co\)fixpoints:(.*?)\n\s*\n'
+                      r'\* Inductives whose positivity is assumed:(.*?)\n', out3, flags=re.S)
+        if rc3 != 0 or not m:
+            problems.append('coqchk failed: ' + out3.strip()[-300:])
+        else:
+            fields = [x.strip() for x in m.groups()]
+            res['coqchk'] = {'axioms': fields[0], 'type_in_type': fields[1], 'unsafe_fix': fields[2], 'assumed_positive': fields[3]}
+            axs = [a for a in re.split(r'\s+', fields[0]) if a and a != '<none>']
+            bad = [a for a in axs if a not in AXIOM_ALLOWLIST]
+            if bad or any(f != '<none>' for f in fields[1:]):
+                problems.append('coqchk reports assumptions: %s' % res['coqchk'])
     res['ok'] = not problems and res['obligations'] > 0 and res['discharged'] == res['obligations']
     return res
 
